@@ -12,6 +12,7 @@ import Driver.Sweep2
 import Driver.Export
 import Driver.Progress
 import Driver.Bool3
+import Driver.Ingest
 import Driver.Partition
 import Driver.Hull
 import Driver.Sync
@@ -36,6 +37,7 @@ def dispatch (line : String) : String :=
   | "export" :: rest => ExportDrv.handle rest
   | "progress" :: rest => ProgressDrv.handle rest
   | "bool3" :: rest => Bool3Drv.handle rest
+  | "ingest" :: rest => IngestDrv.handle rest
   | "partition" :: rest => PartitionDrv.handle rest
   | "hull" :: rest => HullDrv.handle rest
   | "sync" :: rest => SyncDrv.handle rest
